@@ -543,6 +543,12 @@ def _offset_from_spaces(dom, ran):
                              '(its grid starts {} cells to the right, must '
                              'be between 0 and {})'
                              ''.format(i, offset[i], max_offset))
+        # In axes of unchanged size, the two grids must coincide
+        if (not affected[i] and np.isfinite(offset_float[i]) and
+                not np.isclose(offset_float[i], 0)):
+            raise ValueError('in axis {}: range is shifted relative to domain '
+                             'by {} cells although the size is unchanged'
+                             ''.format(i, -offset_float[i]))
     offset[~affected] = 0
     return tuple(offset)
 
